@@ -672,9 +672,11 @@ fn cmap_oracles(s: &mut Session, label: &str, data: &[u8], req: &Req, r: &mut Rn
             let Some(mv) = o14.map_variant(c, sel) else { continue };
             let _ = mv;
             let sel_kept = uniset.contains(&sel);
+            // the character is kept when it was requested or its nominal glyph was requested
+            let c_kept = ocm.map(c).map_or(false, |g| wanted(c, g.to_u32()));
             let want = match o14.map_variant(c, sel) {
-                Some(MapVariant::UseDefault) if sel_kept && uniset.contains(&c) && ocm.map(c).is_some() => Some(MapVariant::UseDefault),
-                Some(MapVariant::Variant(g)) if sel_kept && (uniset.contains(&c) || gidset.contains(&g.to_u32())) => {
+                Some(MapVariant::UseDefault) if sel_kept && c_kept => Some(MapVariant::UseDefault),
+                Some(MapVariant::Variant(g)) if sel_kept && (c_kept || gidset.contains(&g.to_u32())) => {
                     gmap.get(&g.to_u32()).map(|n| MapVariant::Variant(GlyphId::new(*n)))
                 }
                 _ => None,
@@ -724,6 +726,366 @@ fn block_fonts(cfg: &Config, s: &mut Session, r: &mut Rng) {
             let (b0, bl) = *r.pick(&bf.blocks);
             let req = Req { gids: vec![], unicodes: (b0..b0 + bl).collect(), flags };
             cmap_oracles(s, &bf.label, &bf.data, &req, r);
+        }
+    }
+}
+
+
+// ---------------------------------------------------------------------------------------------
+// hand-assembled cmap tables: chosen encoding records, formats 4 / 12 / 14 / 6 / 0
+// ---------------------------------------------------------------------------------------------
+
+#[derive(Clone, Debug)]
+pub struct Vs {
+    pub selector: u32,
+    /// (start, additional count)
+    pub defaults: Option<Vec<(u32, u8)>>,
+    /// (unicode, glyph)
+    pub non_defaults: Option<Vec<(u32, u16)>>,
+}
+
+#[derive(Clone, Debug)]
+pub enum SrcSub {
+    /// segments = maximal blocks of consecutive code points; `array`: use glyphIdArray even for runs
+    F4 { lang: u16, pairs: Vec<(u32, u32)>, array: bool },
+    F12 { lang: u32, pairs: Vec<(u32, u32)> },
+    F14(Vec<Vs>),
+    F6 { lang: u16, first: u16, gids: Vec<u16> },
+    F0 { lang: u16 },
+}
+
+fn p16(o: &mut Vec<u8>, v: u32) {
+    o.extend_from_slice(&(v as u16).to_be_bytes());
+}
+fn p24(o: &mut Vec<u8>, v: u32) {
+    o.extend_from_slice(&v.to_be_bytes()[1..]);
+}
+fn p32(o: &mut Vec<u8>, v: u32) {
+    o.extend_from_slice(&v.to_be_bytes());
+}
+
+fn encode_f4(lang: u16, pairs: &[(u32, u32)], array: bool) -> Vec<u8> {
+    // blocks of consecutive code points
+    let mut blocks: Vec<Vec<(u32, u32)>> = vec![];
+    for p in pairs.iter().filter(|p| p.0 < 0xFFFF) {
+        match blocks.last_mut() {
+            Some(b) if b.last().unwrap().0 + 1 == p.0 => b.push(*p),
+            _ => blocks.push(vec![*p]),
+        }
+    }
+    let n = blocks.len() + 1;
+    let (mut ends, mut starts, mut deltas, mut offs, mut arr): (Vec<u32>, Vec<u32>, Vec<u32>, Vec<u32>, Vec<u32>) = Default::default();
+    for (i, b) in blocks.iter().enumerate() {
+        starts.push(b[0].0);
+        ends.push(b.last().unwrap().0);
+        let run = b.iter().enumerate().all(|(k, p)| p.1 == b[0].1 + k as u32);
+        if run && !array {
+            deltas.push(b[0].1.wrapping_sub(b[0].0) & 0xFFFF);
+            offs.push(0);
+        } else {
+            deltas.push(0);
+            offs.push((2 * (n - i) + 2 * arr.len()) as u32);
+            arr.extend(b.iter().map(|p| p.1));
+        }
+    }
+    starts.push(0xFFFF);
+    ends.push(0xFFFF);
+    deltas.push(1);
+    offs.push(0);
+    let mut o = vec![];
+    let len = 16 + 8 * n + 2 * arr.len();
+    p16(&mut o, 4);
+    p16(&mut o, len as u32);
+    p16(&mut o, lang as u32);
+    p16(&mut o, 2 * n as u32);
+    let es = ilog2(n);
+    p16(&mut o, 2 << es);
+    p16(&mut o, es);
+    p16(&mut o, (2 * n - (2usize << es)) as u32);
+    for v in &ends {
+        p16(&mut o, *v);
+    }
+    p16(&mut o, 0);
+    for v in starts.iter().chain(&deltas).chain(&offs).chain(&arr) {
+        p16(&mut o, *v);
+    }
+    o
+}
+
+fn encode_f12(lang: u32, pairs: &[(u32, u32)]) -> Vec<u8> {
+    let mut groups: Vec<(u32, u32, u32)> = vec![];
+    for p in pairs {
+        match groups.last_mut() {
+            Some(g) if g.1 + 1 == p.0 && g.2 + (g.1 - g.0) + 1 == p.1 => g.1 = p.0,
+            _ => groups.push((p.0, p.0, p.1)),
+        }
+    }
+    let mut o = vec![];
+    p16(&mut o, 12);
+    p16(&mut o, 0);
+    p32(&mut o, 16 + 12 * groups.len() as u32);
+    p32(&mut o, lang);
+    p32(&mut o, groups.len() as u32);
+    for g in groups {
+        p32(&mut o, g.0);
+        p32(&mut o, g.1);
+        p32(&mut o, g.2);
+    }
+    o
+}
+
+fn encode_f14(recs: &[Vs]) -> Vec<u8> {
+    let mut tables: Vec<u8> = vec![];
+    let head = 10 + 11 * recs.len();
+    let mut o = vec![];
+    let mut rec_bytes = vec![];
+    for r in recs {
+        p24(&mut rec_bytes, r.selector);
+        match &r.defaults {
+            Some(d) => {
+                p32(&mut rec_bytes, (head + tables.len()) as u32);
+                p32(&mut tables, d.len() as u32);
+                for (s, c) in d {
+                    p24(&mut tables, *s);
+                    tables.push(*c);
+                }
+            }
+            None => p32(&mut rec_bytes, 0),
+        }
+        match &r.non_defaults {
+            Some(d) => {
+                p32(&mut rec_bytes, (head + tables.len()) as u32);
+                p32(&mut tables, d.len() as u32);
+                for (u, g) in d {
+                    p24(&mut tables, *u);
+                    p16(&mut tables, *g as u32);
+                }
+            }
+            None => p32(&mut rec_bytes, 0),
+        }
+    }
+    p16(&mut o, 14);
+    p32(&mut o, (head + tables.len()) as u32);
+    p32(&mut o, recs.len() as u32);
+    o.extend(rec_bytes);
+    o.extend(tables);
+    o
+}
+
+fn encode_sub(sub: &SrcSub) -> Vec<u8> {
+    match sub {
+        SrcSub::F4 { lang, pairs, array } => encode_f4(*lang, pairs, *array),
+        SrcSub::F12 { lang, pairs } => encode_f12(*lang, pairs),
+        SrcSub::F14(recs) => encode_f14(recs),
+        SrcSub::F6 { lang, first, gids } => {
+            let mut o = vec![];
+            p16(&mut o, 6);
+            p16(&mut o, 10 + 2 * gids.len() as u32);
+            p16(&mut o, *lang as u32);
+            p16(&mut o, *first as u32);
+            p16(&mut o, gids.len() as u32);
+            for g in gids {
+                p16(&mut o, *g as u32);
+            }
+            o
+        }
+        SrcSub::F0 { lang } => {
+            let mut o = vec![];
+            p16(&mut o, 0);
+            p16(&mut o, 262);
+            p16(&mut o, *lang as u32);
+            o.extend((0..256u32).map(|i| if (0x41..0x5B).contains(&i) { (i - 0x40) as u8 } else { 0 }));
+            o
+        }
+    }
+}
+
+/// records (platform, encoding, index into `subs`), sorted by (platform, encoding) by the caller
+pub fn build_cmap(recs: &[(u16, u16, usize)], subs: &[SrcSub]) -> Vec<u8> {
+    let enc: Vec<Vec<u8>> = subs.iter().map(encode_sub).collect();
+    let mut offs = vec![];
+    let mut pos = 4 + 8 * recs.len();
+    for e in &enc {
+        offs.push(pos);
+        pos += e.len();
+    }
+    let mut o = vec![];
+    p16(&mut o, 0);
+    p16(&mut o, recs.len() as u32);
+    for (p, e, i) in recs {
+        p16(&mut o, *p as u32);
+        p16(&mut o, *e as u32);
+        p32(&mut o, offs[*i] as u32);
+    }
+    for e in enc {
+        o.extend(e);
+    }
+    o
+}
+
+struct RecFont {
+    label: String,
+    data: Vec<u8>,
+    blocks: Vec<(u32, u32)>,
+    selectors: Vec<u32>,
+}
+
+fn gen_record_font(r: &mut Rng, id: usize) -> RecFont {
+    // the mapping: run-structured BMP blocks, optionally supplementary blocks
+    let mut mapping: Vec<(u32, u32)> = vec![];
+    let mut blocks = vec![];
+    let mut cp = *r.pick(&[0x20u32, 0x30, 0x41, 0x100, 0x3000]);
+    let mut gid = 1u32;
+    for _ in 0..r.range(2, 5) {
+        let mut lens = vec![];
+        for _ in 0..r.range(1, 3) {
+            lens.extend(rand_lens(r));
+        }
+        let order = r.below(4);
+        let (blk, g2) = run_block(r, cp, &lens, gid, order);
+        gid = g2 + r.below(2) as u32;
+        blocks.push((cp, blk.len() as u32));
+        cp = blk.last().unwrap().0 + 1 + *r.pick(&[1u32, 2, 9, 200]);
+        mapping.extend(blk);
+    }
+    let shape = id % 8;
+    let mut supp: Vec<(u32, u32)> = vec![];
+    if shape != 0 && shape != 5 {
+        let mut cp = *r.pick(&[0x10000u32, 0x1F600, 0x20000]);
+        for _ in 0..r.range(1, 3) {
+            let lens = rand_lens(r);
+            let order = r.below(4);
+            let (blk, g2) = run_block(r, cp, &lens, gid, order);
+            gid = g2;
+            blocks.push((cp, blk.len() as u32));
+            cp = blk.last().unwrap().0 + 1 + *r.pick(&[1u32, 7]);
+            supp.extend(blk);
+        }
+    }
+    // extra glyphs only reachable through variation sequences
+    let vs_gid0 = gid;
+    gid += 12;
+    let n = gid as usize + 2;
+    let full: Vec<(u32, u32)> = mapping.iter().chain(supp.iter()).copied().collect();
+    // format 12 content: everything; or (shape 5) only the BMP part (droppable); or (shape 6) a BMP part that
+    // differs from format 4's
+    let f12_pairs: Vec<(u32, u32)> = match shape {
+        6 => full.iter().copied().filter(|p| p.0 % 5 != 0).collect(),
+        _ => full.clone(),
+    };
+    let f4_pairs: Vec<(u32, u32)> = match shape {
+        7 => mapping.iter().copied().filter(|p| p.0 % 7 != 1).collect(),
+        _ => mapping.clone(),
+    };
+    let lang4 = if shape == 3 { 1 } else { 0 };
+    let lang12 = if shape == 3 || shape == 4 { 1 } else { 0 };
+    let mut subs = vec![
+        SrcSub::F4 { lang: lang4, pairs: f4_pairs.clone(), array: r.chance(1, 3) },
+        SrcSub::F12 { lang: lang12, pairs: f12_pairs },
+    ];
+    // variation sequences
+    let mut selectors = vec![];
+    let with14 = shape != 2;
+    if with14 {
+        let mut vs = vec![];
+        let all_bmp: Vec<u32> = mapping.iter().map(|p| p.0).collect();
+        for (k, sel) in [0xFE00u32, 0xFE01, 0xE0100].iter().enumerate() {
+            if r.chance(1, 4) {
+                continue;
+            }
+            selectors.push(*sel);
+            // default ranges: many single code points (count 0) and some longer ranges, ascending, disjoint
+            let mut defaults = vec![];
+            let many = r.chance(1, 2);
+            let mut i = r.below(3) as usize;
+            while i < all_bmp.len() {
+                let c = all_bmp[i];
+                let maxlen = all_bmp[i..].iter().enumerate().take_while(|(k, v)| **v == c + *k as u32).count();
+                let len = if r.chance(1, 3) { (r.range(1, 6) as usize).min(maxlen) } else { 1 };
+                defaults.push((c, (len - 1) as u8));
+                i += len + if many { r.below(2) as usize } else { r.range(2, 9) as usize };
+            }
+            let mut nd = vec![];
+            for (j, c) in all_bmp.iter().enumerate() {
+                if (j + k) % 5 == 0 && r.chance(2, 3) {
+                    nd.push((*c, (vs_gid0 + ((j + k) % 12) as u32) as u16));
+                }
+            }
+            vs.push(Vs {
+                selector: *sel,
+                defaults: if defaults.is_empty() || r.chance(1, 6) { None } else { Some(defaults) },
+                non_defaults: if nd.is_empty() || r.chance(1, 6) { None } else { Some(nd) },
+            });
+        }
+        if !vs.is_empty() {
+            subs.push(SrcSub::F14(vs));
+        }
+    }
+    let has14 = subs.len() == 3;
+    subs.push(SrcSub::F6 { lang: 0, first: 0x41, gids: vec![1, 2, 3] });
+    let i6 = subs.len() - 1;
+    subs.push(SrcSub::F0 { lang: 0 });
+    let i0 = subs.len() - 1;
+    // records, sorted by (platform, encoding)
+    let mut recs: Vec<(u16, u16, usize)> = vec![];
+    match shape {
+        1 => recs.extend([(0, 3, 0), (0, 4, 1), (3, 1, 0), (3, 10, 1)]),
+        2 => recs.extend([(0, 3, 0), (3, 1, 0)]),
+        3 | 4 => recs.extend([(0, 3, 0), (0, 4, 1), (3, 1, 0), (3, 10, 1)]),
+        5 => recs.extend([(0, 1, 0), (0, 3, 0), (0, 4, 1), (3, 0, 0), (3, 1, 0)]),
+        6 | 7 => recs.extend([(0, 3, 0), (3, 1, 0), (3, 10, 1)]),
+        _ => recs.extend([(0, 3, 0), (0, 4, 1), (3, 1, 0), (3, 10, 1)]),
+    }
+    if has14 {
+        recs.push((0, 5, 2));
+    }
+    if r.chance(1, 2) {
+        recs.push((1, 0, if r.chance(1, 2) { i6 } else { i0 }));
+    }
+    recs.sort();
+    let cmap = build_cmap(&recs, &subs);
+    let label = format!("syn:cmaprecs#{id}");
+    let base = font_from_mapping(&label, n, &mapping);
+    RecFont { data: with_cmap(&base, cmap), label, blocks, selectors }
+}
+
+fn record_fonts(cfg: &Config, s: &mut Session, r: &mut Rng) {
+    let nfonts = if cfg.thorough() { 400 } else { 32 };
+    let nreq = if cfg.thorough() { 24 } else { 9 };
+    for id in 0..nfonts {
+        let rf = gen_record_font(r, id);
+        let Ok(font) = FontRef::new(&rf.data) else {
+            s.count("cmap-recs:font-unreadable");
+            continue;
+        };
+        if font.cmap().is_err() {
+            s.count("cmap-recs:cmap-unreadable");
+            continue;
+        }
+        let all: Vec<u32> = font.charmap().mappings().map(|(c, _)| c).collect();
+        for k in 0..nreq {
+            let flags = block_flags(r);
+            let mut req = if k % 3 == 2 {
+                // a small request: a few single characters (default UVS "few unicodes" branch)
+                let mut u = BTreeSet::new();
+                for _ in 0..r.range(1, 4) {
+                    if !all.is_empty() {
+                        u.insert(*r.pick(&all));
+                    }
+                }
+                Req { gids: vec![], unicodes: u.into_iter().collect(), flags }
+            } else {
+                block_request(r, &rf.blocks, &all, flags)
+            };
+            // variation selectors
+            for sel in &rf.selectors {
+                if r.chance(2, 3) {
+                    req.unicodes.push(*sel);
+                }
+            }
+            req.unicodes.sort();
+            req.unicodes.dedup();
+            cmap_oracles(s, &rf.label, &rf.data, &req, r);
         }
     }
 }
@@ -786,5 +1148,6 @@ fn corpus_blocks(cfg: &Config, s: &mut Session, r: &mut Rng) {
 pub fn run(cfg: &Config, s: &mut Session, r: &mut Rng) {
     unit_lists(cfg, s, r);
     block_fonts(cfg, s, r);
+    record_fonts(cfg, s, r);
     corpus_blocks(cfg, s, r);
 }
